@@ -95,7 +95,13 @@ func (sock *TunnelSocket) Inbound() <-chan Service {
 
 // Close shuts the socket down. This will indirectly terminate the associated workers.
 func (sock *TunnelSocket) Close() error {
-	return sock.conn.Close()
+	err := sock.conn.Close()
+
+	// The worker may be blocked handing over a packet that nobody is going to take any more. Take
+	// what is left until the worker has noticed the closed connection and closed the channel.
+	go drainInbound(sock.inbound)
+
+	return err
 }
 
 // LocalAddr returns the local UDP address.
@@ -176,12 +182,22 @@ func (sock *RouterSocket) Inbound() <-chan Service {
 
 // Close shuts the socket down. This will indirectly terminate the associated workers.
 func (sock *RouterSocket) Close() error {
-	return sock.conn.Close()
+	err := sock.conn.Close()
+
+	go drainInbound(sock.inbound)
+
+	return err
 }
 
 // LocalAddr returns the local UDP address.
 func (sock *RouterSocket) LocalAddr() net.Addr {
 	return sock.conn.LocalAddr()
+}
+
+// drainInbound discards packets until the channel is closed.
+func drainInbound(inbound <-chan Service) {
+	for range inbound {
+	}
 }
 
 // serveUDPSocket is the receiver worker for a UDP socket.
